@@ -97,6 +97,13 @@ L3 == CL("star3-K80-2loci", "(a,b,c)", <<0, 1, 1, 1>>, <<"", "a", "b", "c">>, <<
          <<One, One, Half, Half>>, 3, <<3, 5>>, <<2, 1>>,
          << ColsOf(4, {2, 3, 4}, << <<>>, <<"A", "C", "G", "T", "A">>, <<"G", "C", "G", "T", "R">>, <<"A", "T", "G", "C", "A">> >>),
             ColsOf(4, {2, 3, 4}, << <<>>, <<"T", "T", "C">>, <<"C", "T", "N">>, <<"T", "A", "C">> >>) >>, TRUE)
+(* a WIDE polytomy: 9 tips under the root (kernels that take their children in groups must still multiply all of them);
+   JC69, q = 1/2 on odd edges, q = 1 (zero length) on even ones keeps the exact numbers small; no brute force (4^10 assignments) *)
+S9jc == C("star9-JC69", "(a,b,c,d,e,f,g,h,i)", <<0, 1, 1, 1, 1, 1, 1, 1, 1, 1>>, <<"", "a", "b", "c", "d", "e", "f", "g", "h", "i">>,
+          <<"", "a", "b", "c", "d", "e", "f", "g", "h", "i">>, <<0, 1, 1, 1, 1, 1, 1, 1, 1, 1>>, 1,
+          <<One, Half, Half, Half, Half, Half, Half, Half, Half, Half>>, <<>>, <<>>,
+          ColsOf(10, 2..10, << <<>>, <<"A", "A", "C">>, <<"A", "C", "C">>, <<"A", "A", "G">>, <<"A", "G", "T">>, <<"A", "A", "A">>,
+                                       <<"A", "T", "N">>, <<"A", "A", "C">>, <<"A", "C", "R">>, <<"A", "G", "G">> >>), 0, FALSE)
 (* tree shapes for the root-free parameter scopes of Invariance.tla (two columns only: the scopes need the tree, not the data) *)
 TwoCols(n, leaves) == << [m \in 1..n |-> IF m \in leaves THEN "A" ELSE "N"], [m \in 1..n |-> IF m \in leaves THEN (IF m % 2 = 0 THEN "C" ELSE "T") ELSE "N"] >>
 P4s == [P4f EXCEPT !.id = "trifurcation4-scopes", !.cols = TwoCols(6, {2, 3, 5, 6}), !.nbrute = 2, !.normalise = FALSE]
@@ -107,8 +114,8 @@ T5s == C("trifurcation5-scopes", "((a,b)ab,(c,d)cd,e)", <<0, 1, 1, 1, 2, 2, 3, 3
          <<One, Half, Third, Half, Half, Third, Half, TwoThirds>>, <<>>, <<>>, TwoCols(8, {4, 5, 6, 7, 8}), 2, FALSE)
 ScopeConfigs == <<P4s, B4s, T5s>>
 HmmConfigs == <<H2, H3, H2eq>>
-QuickConfigs == <<T2, S3jc, R3hk, R3sc, S3bins, T2bins, H2, H3, H2eq, L3>>
-AllConfigs == <<T2, S3jc, S3tn, R3hk, R3sc, B4k8, P4f, S4jc, S3bins, T2bins, H2, H3, H2eq, L3>>
+QuickConfigs == <<T2, S3jc, R3hk, R3sc, S3bins, T2bins, H2, H3, H2eq, L3, S9jc>>
+AllConfigs == <<T2, S3jc, S3tn, R3hk, R3sc, B4k8, P4f, S4jc, S3bins, T2bins, H2, H3, H2eq, L3, S9jc>>
 QuickInvConfigs == QuickConfigs \o ScopeConfigs
 AllInvConfigs == AllConfigs \o ScopeConfigs
 =============================================================================
